@@ -3,7 +3,7 @@ SIM = ("Trusted base: the simulated pika broker and the time model of DESIGN.md 
        "RabbitMQ offline); virtual clock/uuid seams; CPython. Bounds: the scenario corpus named in the evidence file.")
 ENGINES = [
     {"name": "explorer", "path": "harness/explorer.py", "kind_free_text": "stateless DFS explicit-state model checker over the real engine on a simulated broker (replay + fingerprint dedup + deviation bound)",
-     "serves_properties": ["C02", "C03", "C05", "C06", "C08", "C09", "C11"]},
+     "serves_properties": ["C02", "C03", "C04", "C05", "C06", "C08", "C09", "C11"]},
     {"name": "enumerator", "path": "checks/common.py", "kind_free_text": "exhaustive small-scope enumeration of inputs/programs from a stated finite alphabet, each evaluated on the real code and on a reference model under /verif/ref",
      "serves_properties": ["C01", "C07", "C08", "C12", "C14"]},
 ]
@@ -74,6 +74,15 @@ CHECKS["C07"] = {
             "Known defects matched only through exact defect models (e.g. the shared-RetryCount model).",
     "note": ENUM + " " + SIM,
     "technique": "exhaustive small-scope enumeration of policies x fault sequences against a reference interpreter, on a virtual clock (bounded model checking, explicit enumeration)",
+}
+CHECKS["C04"] = {
+    "engine": "explorer",
+    "text": "Fault enumeration + explicit-state exploration: for every scenario of the crash corpus, every crash point between two atomic steps of the canonical run (plain, and with the head message of "
+            "each consumed queue already in flight to the dead process) and every crash point after an individual broker operation inside a step is taken; the process is restarted with the same "
+            "instance id and all interleavings of redelivered events, pending replies and timers are then explored (closed). Oracles: no execution lost; for between-step crashes the same terminal "
+            "status/output as crash-free; no correlation id requested twice. Double crashes in the thorough tier.",
+    "note": SIM + " A crash is modelled as the broker seeing the connection drop (unacked deliveries requeued in place, flagged redelivered) with all volatile engine state lost; the JSON store file survives.",
+    "technique": "exhaustive crash-point enumeration + explicit-state model checking of the implementation after restart",
 }
 NA = {}
 NOTES = "All checks run the real code of /repo's working tree (imported by path) over /verif/sim; see DESIGN.md."
